@@ -154,10 +154,11 @@ def fp_array(a):
     a = np.ma.asanyarray(a)
     mask = np.ma.getmaskarray(a)
     if a.dtype.kind in "iufb":
-        vals = np.where(mask, 0, a.data)
+        vals = np.ascontiguousarray(np.where(mask, 0, a.data)).tobytes()
     else:
-        vals = np.where(mask, "", a.data.astype("U"))
-    h = hashlib.sha1(np.ascontiguousarray(vals).tobytes() + np.ascontiguousarray(mask).tobytes()).hexdigest()[:16]
+        # strings: the values themselves, not the padded buffer (whose width is that of the longest string)
+        vals = json.dumps(np.where(mask, "", a.data.astype("U")).ravel().tolist()).encode()
+    h = hashlib.sha1(vals + np.ascontiguousarray(mask).tobytes()).hexdigest()[:16]
     kind = str(a.dtype) if a.dtype.kind in "iufb" else a.dtype.kind
     return [kind, list(a.shape), int(mask.sum()), h]
 
